@@ -32,6 +32,9 @@ def _w_replay(beh):
     try:
         return ws.replay(beh)
     except Exception as e:
+        if ws.resource_exhausted(e):
+            # the harness process ran out of a resource: nothing is known about the code
+            return {"step": -1, "action": {}, "what": f"exception {e!r}"[:300], "machinery": True}
         return {"step": -1, "action": {}, "what": f"exception {e!r}"[:300]}
 
 
@@ -65,6 +68,9 @@ def behaviours(rep, prop, tier, sd):
             continue
         act = d["action"].get("a")
         what = d["what"]
+        if d.get("machinery"):
+            rep.machinery_failure(f"workspace replay ran out of a resource: {what}")
+            continue
         if prop == "C05":
             # a job whose success marker exists is never run again by a later experiment: the markers of the job directories
             mine = act == "run" and "'dirs'" in what
@@ -256,10 +262,14 @@ def _w_orphans_race(k):
         err = repr(r.exception)[:200] if r.exception is not None and not isinstance(r.exception, SystemExit) else None
         deleted = sorted(n for n, (task, ident) in h.ids.items() if not (h.wd / "jobs" / task / ident).is_dir())
         if state["xp"] is not None:
+            central = state["xp"].central
             try:
                 raise RuntimeError("leave without dropping the backup")
             except RuntimeError:
                 state["xp"].__exit__(*sys.exc_info())
+            from .ws import reap_central
+
+            reap_central(central)
         return state["n"], state["order"], deleted, err
     finally:
         h.close()
